@@ -224,6 +224,24 @@ def run(ctx):
     for a in ("hdr", "err", "pct", "codec"):
         if by_area.get(a):
             ctx.sample(by_area[a][len(by_area[a]) // 2])
+    # 2b. the reference server's own rendering of an error as gRPC / gRPC-Web status (a second implementation of
+    # the Connect -> status conversion, used for unary errors with custom response headers): same errors
+    errs = [s for s in scns if s.get("area") == "err"]
+    if errs and not ctx.replay:
+        sbin = ctx.go_test_bin("internal/app/referenceserver", ["c18srv"])
+        scnp, outp = os.path.join(ctx.build, "c18srv.scn"), os.path.join(ctx.build, "c18srv.out")
+        vf.write_ndjson(scnp, errs)
+        ctx.run_harness(sbin, "TestVerifC18SrvStatus", env=dict(VERIF_SCN=scnp, VERIF_OUT=outp), timeout=1800)
+        srecs = vf.read_ndjson(outp)
+        summ = [r for r in srecs if r.get("summary")]
+        if not summ or summ[0]["errors"] == 0:
+            raise vf.Machinery("reference-server status harness evaluated nothing")
+        for r in srecs:
+            if r.get("kind") == "srvraw":
+                ctx.candidate(dict(kind="srvraw", form=r["form"], first=r["problems"][0].split(" ")[0]),
+                              "reference server's own %s status for error %s: %s" % (r["form"], json.dumps(r["e"]), "; ".join(r["problems"])[:600]), r)
+        ctx.cov["evaluations"] += 2 * summ[0]["errors"]
+        ctx.cov["traces_validated_against_impl"] += summ[0]["errors"]
     # 3. code -> spec: recorded executions beyond the TLC domain accepted by Trace_Convert
     recs = _record(ctx, binp, 4000 if q else 60000)
     ctx.sample(recs[0])
